@@ -92,6 +92,16 @@ theorem C05_nonce_unique (i j : Nat) (hi : i < NONCE_LIMIT) (hj : j < NONCE_LIMI
     nonceBytes i ≠ nonceBytes j ∧ packNonce NONCE_LIMIT = none := by
   refine ⟨by simp [packNonce, hi], by simp [packNonce, hj], fun e => hne (nonceBytes_inj i j hi hj e), by simp [packNonce]⟩
 
+/-- … and the same holds for an implementation that keeps the 12 nonce bytes and bumps them in place once per
+    frame (carry as far as needed) instead of packing the counter afresh: the bytes used for frame `i` are
+    `PACK_NONCE(i)`, so two different frames of a session (below 2^64) never share a nonce — whichever byte
+    of the nonce the frame number has reached (256, 65536, 2^24, …). -/
+theorem C05_nonce_in_place_unique (i j : Nat) (hi : i < NONCE_LIMIT) (hj : j < NONCE_LIMIT) (hne : i ≠ j) :
+    bumped i = nonceBytes i ∧ bumped i ≠ bumped j := by
+  refine ⟨bumped_eq i, ?_⟩
+  rw [bumped_eq, bumped_eq]
+  exact fun e => hne (nonceBytes_inj i j hi hj e)
+
 /-- The pair-verify completion response is the last plaintext ever written: on a connection
     that starts unsecured, for EVERY sequence of writes (responses, events, delayed responses in
     any order), write number `j` goes out in plaintext iff no earlier response carried a
@@ -135,6 +145,7 @@ theorem C05_event_wellformed (body rest : Bytes) :
   Hap.Event.readEvent_createEvent body rest
 
 /-! non-vacuity -/
+example : bumped 3 = [0, 0, 0, 0, 3, 0, 0, 0, 0, 0, 0, 0] ∧ bumpNonce (nonceBytes 65535) = nonceBytes 65536 := by decide
 example : Hap.Event.decimal 1024 = [49, 48, 50, 52] := by decide
 example : (Tx.run mockAead {} [.response [1] false, .response [2] true, .event [3], .delayed [4]]).map Out.isPlain
     = [true, true, false, false] := by decide +kernel
